@@ -226,7 +226,14 @@ func Run(ctx *core.Ctx) {
 		"requests: lengths around 63 / 64 / 253..256 / 1 KiB / 4 KiB / 64 KiB x ASCII, 2-, 3-, 4-byte encodings (every byte offset 240..260 the start of one), " +
 		"invalid UTF-8, percent-encoded, IDN / punycode look-alikes, IPv6 zones x CONNECT authority / absolute-form / Host field x plain, TLS, intercepting " +
 		"listeners and the handler variant, every proxy built as command/run builds it (one registry shared by proxy and transport: forwarder.Dialer labels " +
-		"its metrics with the host), the labels read back after every batch and compared with Model.C12.addr2Host of the addresses dialled. Every case with a " +
+		"its metrics with the host), the labels read back after every batch and compared with Model.C12.addr2Host of the addresses dialled; the torn-reply matrix " +
+		"(cuts in head and body under chunked / close-delimited / Content-Length framing, gzip-coded and large bodies, FIN and RST, TCP server and handler variant) and " +
+		"client uploads torn mid-body (FIN and RST, Content-Length and chunked; what the ORIGIN reads is judged) under every HTTP log mode of httplog (none, short-url, url, " +
+		"headers, body; errors is the default of all other cases), compared with Model.C12.clientStreamLogged / forwardedUpload; Accept errors of the listener: the proxy's " +
+		"listener wrapped and made to return the net package's error objects (EMFILE, ENFILE, EINTR, ECONNABORTED, ECONNRESET, deadline, ETIMEDOUT; net.ErrClosed, EINVAL, a " +
+		"non-net.Error) in scripted sequences between probe requests on fresh connections, both server variants, per error: what it says of itself, retry (and the delay) or " +
+		"return, compared with Model.C12.acceptRun, and real descriptor exhaustion in a child process of its own (RLIMIT_NOFILE lowered, connections held until accept4 " +
+		"fails, released, a fresh client must be served). Every case with a " +
 		"fault, hostile input or scripted reply is non-trivial; distinct = distinct (kind, path, framing, fault point, FIN/RST, input / reply bytes)")
 	// the corpus: single cases as one batch (ids made distinct), recorded batches as they are
 	var corpus []*Case
@@ -251,7 +258,7 @@ func Run(ctx *core.Ctx) {
 		// development aid: run a slice of the generated cases (handler | host | a kind)
 		var sel []*Case
 		for _, c := range cases {
-			if (only == "handler" && c.Server == "handler") || (only == "host" && strings.HasPrefix(c.What, "host/")) || only == c.Kind {
+			if (only == "handler" && c.Server == "handler") || (only == "host" && strings.HasPrefix(c.What, "host/")) || (only == "log" && c.LogMode != "") || only == c.Kind {
 				sel = append(sel, c)
 			}
 		}
@@ -265,12 +272,20 @@ func Run(ctx *core.Ctx) {
 	// interleave so that every batch mixes kinds (and the slow ones spread out)
 	nb := ctx.N(6, 12)
 	batches := make([][]*Case, nb)
+	var alone []*Case
 	for i, c := range cases {
 		if c.Kind == "label" {
 			batches[0] = append(batches[0], c) // the label proxy is used sequentially by one child
 			continue
 		}
+		if c.ownProcess() {
+			alone = append(alone, c) // changes a limit of the whole process (accept.go)
+			continue
+		}
 		batches[i%nb] = append(batches[i%nb], c)
+	}
+	for _, c := range alone {
+		batches = append(batches, []*Case{c})
 	}
 	maxPer := 700
 	var wg sync.WaitGroup
